@@ -298,9 +298,13 @@ func (g *Gossip) scheduleFunc(interval time.Duration, f func()) {
 		select {
 		case <-ticker.C:
 			// Add 10% jitter to avoid nodes synchronising.
-			jitterMs := (rand.Int63() % interval.Milliseconds()) / 10
+			//
+			// Computed on the duration itself: an interval below a
+			// millisecond has zero milliseconds, which must not be used as
+			// a divisor.
+			jitter := time.Duration(rand.Int63n(int64(interval))) / 10
 			select {
-			case <-time.After(time.Duration(jitterMs) * time.Millisecond):
+			case <-time.After(jitter):
 				f()
 			case <-g.shutdownCh:
 				return
